@@ -3,6 +3,9 @@
  * driver), with format_to / format_from replaced by recording sinks and symbolic argument values. libc formatting itself
  * (what vsprintf writes for a specification) is assumed. */
 #include "src/Show.c"
+#ifdef CV_NUM_INLINE
+#include "src/Num.c"     /* Int_Show / Int_Look are static: the round-trip obligations include the unit instead of linking it */
+#endif
 #include "contracts/common.h"
 #include "gen_format.h"   /* FMT (string literal), NPIECES, piece_text[], piece_kind[], NARGS_NEEDED, NARGS_GIVEN */
 
@@ -32,11 +35,30 @@ var assign(var self, var obj) {
 static int expect_throw;
 void cv_on_throw(var obj) { ASSERT(expect_throw && obj == FormatError, "[C14][C12] FormatError exactly when there are fewer arguments than specifications"); }
 
-static OBJ(Ref, OUT); static var out; static int in_pos; static int cv_piece; static int cv_ret[NPIECES + 1]; static int cv_running;
+static int in_pos; static var out; static OBJ(Ref, OUT); static int cv_piece; static int cv_ret[NPIECES + 1]; static int cv_running;
 static int cv_shows;
 /* the sink: called once per piece, in order, with the piece's text as its own NUL-terminated format and the value fetched
  * through the accessor that matches the conversion */
+static int cv_roundtrip; static int cv_to_calls; static double gh_f; static int64_t gh_i; static int gh_n;
 int cv_format_to(var self, int pos, const char* fmt, ...) {
+  if (cv_roundtrip) {   /* C15 writer side: libc prints the argument with the width the conversion names (assumed); the text stands for that value */
+    cv_to_calls++;
+    int nl = 0, nh = 0, big = 0, is_f = 0, is_i = 0; size_t i = 0;
+    while (fmt[i] != 0 && fmt[i] != '%') i++;
+    __CPROVER_assert(fmt[i] == '%', "[C15] the writer sends one conversion specification");
+    for (i++; fmt[i] != 0; i++) {
+      char c = fmt[i];
+      if (c == 'l' || c == 'j' || c == 'z' || c == 't') nl++; else if (c == 'h') nh++; else if (c == 'L') big = 1;
+      else if (c == 'd' || c == 'i') { is_i = 1; break; } else if (c == 'f' || c == 'F' || c == 'e' || c == 'g') { is_f = 1; break; }
+    }
+    __CPROVER_assert(is_i || is_f, "[C15] the writer's conversion is a signed integer or floating conversion");
+    va_list va; va_start(va, fmt);
+    if (is_i) { int64_t v = va_arg(va, int64_t); gh_i = nl ? v : nh >= 2 ? (int64_t)(signed char)v : nh == 1 ? (int64_t)(short)v : (int64_t)(int)v; }
+    if (is_f) { double v = va_arg(va, double); __CPROVER_assert(!big, "[C15] a double is not printed with a long double conversion"); gh_f = v; }
+    va_end(va);
+    __CPROVER_assert(self == out && pos == in_pos, "[C15] the value is written to the sink at the given position");
+    return gh_n;
+  }
   __CPROVER_assert(cv_piece < NPIECES, "[C14] no more pieces than the format has");
   int p = cv_piece++;
   __CPROVER_assert(self == out && pos == cv_running, "[C14] every piece goes to the sink at the position where the previous one ended");
@@ -81,7 +103,7 @@ void h_print(void) {
   ASSERT(r == sum, "[C14] the returned position is the start position plus the number of characters written");
 }
 /* ---- C15: the numeric readers use a conversion as wide as the value, consume what the writer wrote ---- */
-static double gh_f; static int64_t gh_i; static int gh_n; static const char* cv_from_fmt; static int cv_from_calls;
+static const char* cv_from_fmt; static int cv_from_calls;
 int cv_format_from(var self, int pos, const char* fmt, ...) {
   cv_from_calls++; cv_from_fmt = fmt;
   va_list va; va_start(va, fmt);
@@ -114,3 +136,31 @@ void h_look_int(void) {
   ASSERT(r == in_pos + gh_n, "[C15] scan consumes exactly the characters that were written");
   COVER(gh_i > (1LL << 40), "a value beyond 32 bits");
 }
+
+#ifdef CV_NUM_INLINE
+/* ---- C15: the real Int_Show composed with the real Int_Look (and Float likewise) through print_to_with / scan_from_with ---- */
+void h_show_look_int(void) {
+  OBJ(Int, X); OBJ(Int, Y); struct Int* x = MK(X, Int, AllocHeap); struct Int* y = MK(Y, Int, AllocHeap); out = MK(OUT, Ref, AllocStack); args_tuple = NULL;
+  x->val = nondet_long(); y->val = nondet_long(); gh_n = nondet_int(); in_pos = nondet_int(); __CPROVER_assume(gh_n >= 1 && gh_n <= 40 && in_pos >= 0 && in_pos <= 1000);
+  int64_t v0 = x->val; cv_roundtrip = 1;
+  int w = Int_Show(x, out, in_pos);
+  ASSERT(cv_to_calls == 1 && w == in_pos + gh_n && x->val == v0, "[C15] show writes the Int once and returns the end of the text");
+  int r = Int_Look(y, out, in_pos);
+  ASSERT(y->val == v0, "[C15] look(show(x)) gives an Int equal to x over the whole int64 range (writer and reader conversions as wide as the value)");
+  ASSERT(r == w && cv_from_calls == 1, "[C15] look consumes exactly the characters show wrote");
+  COVER(v0 > (1LL << 40), "a value beyond 32 bits"); COVER(v0 < -(1LL << 40), "a negative value beyond 32 bits");
+}
+void h_show_look_float(void) {
+  OBJ(Float, X); OBJ(Float, Y); struct Float* x = MK(X, Float, AllocHeap); struct Float* y = MK(Y, Float, AllocHeap); out = MK(OUT, Ref, AllocStack); args_tuple = NULL;
+  x->val = nondet_double(); y->val = nondet_double(); gh_n = nondet_int(); in_pos = nondet_int();
+  __CPROVER_assume(x->val == x->val && x->val > -1e15 && x->val < 1e15 && gh_n >= 1 && gh_n <= 400 && in_pos >= 0 && in_pos <= 1000);
+  double v0 = x->val; cv_roundtrip = 1;
+  int w = Float_Show(x, out, in_pos);
+  ASSERT(cv_to_calls == 1 && w == in_pos + gh_n, "[C15] show writes the Float once and returns the end of the text");
+  int r = Float_Look(y, out, in_pos);
+  double d = y->val - v0; if (d < 0) d = -d;
+  ASSERT(d <= 5e-7, "[C15] look(show(x)) gives a Float equal to x to within the printed precision");
+  ASSERT(r == w && cv_from_calls == 1, "[C15] look consumes exactly the characters show wrote");
+  COVER(v0 > 1e8, "a value float cannot hold exactly");
+}
+#endif
